@@ -62,7 +62,7 @@ def check(ctx):
                       "%s:%s:queues-at-back" % (lib.fkey(body), c01.src_tag(src)), body.loc(e), "appended at the back",
                       "reaction command is enqueued with %s" % mir.fn_name(fr))
     # ---- C09.b postponed => busy ----
-    n = core.adopt(ctx, c02, lambda o: o["rule"] == "C02.a" and ("postpone" in o["key"] or "single-disposition" in o["key"] or "run-on-take-some-arm" in o["key"]), "C09.b")
+    n = core.adopt(ctx, c02, lambda o: o["rule"] == "C02.a" and ("postpone" in o["key"] or ("single-disposition" in o["key"] or "dispositions=" in o["key"]) or "run-on-take-some-arm" in o["key"]), "C09.b")
     ctx.floor("C09.b", n, 3, "shared C02.a obligations")
     # ---- C09.c replay position ----
     ctx.touch(R)
